@@ -67,6 +67,10 @@ type absEnv struct {
 	steps    int
 	maxSteps int
 	// undecidable branches are explored both ways (see runForks)
+	// slice mode (evalGlobal): in sliceFn only the instructions of sliceSet are executed, up to sliceStop
+	sliceFn   *ssa.Function
+	sliceSet  map[ssa.Instruction]bool
+	sliceStop *ssa.Store
 	forkPlan []bool
 	forkLog  []bool
 	forkMemo map[string]bool
@@ -240,6 +244,19 @@ func (e *absEnv) val(fr *absFrame, v ssa.Value) aval {
 		if o := e.globalInit(t); o != nil {
 			e.globals[t.Name()] = o
 			return aptr{o, ""}
+		}
+		// a variable with one whole-value initialiser (a slice or map literal, a call over literals)
+		if t.Pkg != nil && isModPkg(t.Pkg.Pkg.Path()) && theProgram != nil && globalDepth < 4 && !assignedOutsideInit(t) {
+			globalDepth++
+			v, und := evalGlobal(theProgram, strings.TrimPrefix(strings.TrimPrefix(t.Pkg.Pkg.Path(), modPath), "/"), t.Name())
+			globalDepth--
+			if und == "" && v != nil {
+				if _, isUnk := v.(aunk); !isUnk {
+					o := &aobj{name: t.Name(), typ: t.Type().(*types.Pointer).Elem(), f: map[string]aval{"": v}}
+					e.globals[t.Name()] = o
+					return aptr{o, ""}
+				}
+			}
 		}
 		return aunk{"global " + t.Name()}
 	case *ssa.Function:
@@ -486,6 +503,32 @@ func (e *absEnv) call(fn *ssa.Function, args []aval, free []aval, depth int) ava
 			e.steps++
 			if e.steps > e.maxSteps {
 				e.abort("step limit exceeded in %s", fn.Name())
+			}
+			if fn == e.sliceFn && e.sliceSet != nil {
+				if in == ssa.Instruction(e.sliceStop) {
+					return e.val(fr, e.sliceStop.Val)
+				}
+				if !e.sliceSet[in] {
+					switch t := in.(type) {
+					case *ssa.If:
+						// not part of the slice: go where the target is
+						if blockReaches(b.Succs[0], e.sliceStop.Block()) || b.Succs[0] == e.sliceStop.Block() {
+							next = b.Succs[0]
+						} else {
+							next = b.Succs[1]
+						}
+					case *ssa.Jump:
+						next = b.Succs[0]
+					case *ssa.Return:
+						return aunk{"initialiser not reached"}
+					default:
+						if v, ok := in.(ssa.Value); ok {
+							fr.regs[v] = aunk{"outside the initialiser's slice"}
+						}
+						_ = t
+					}
+					continue
+				}
 			}
 			if e.instrStr(fr, in) {
 				continue
@@ -1023,6 +1066,7 @@ func (e *absEnv) globalInit(g *ssa.Global) *aobj {
 	o := &aobj{name: g.Name(), typ: g.Type().(*types.Pointer).Elem(), f: map[string]aval{}}
 	n := 0
 	trusted := true
+	complex := false // some element is computed: leave the variable to the slice evaluation of its initialiser
 	for _, m := range g.Pkg.Members {
 		f, ok := m.(*ssa.Function)
 		if !ok {
@@ -1062,13 +1106,112 @@ func (e *absEnv) globalInit(g *ssa.Global) *aobj {
 						o.f[p] = aunk{"initialiser of " + g.Name() + "." + p}
 					}
 				default:
-					o.f[p] = aunk{"initialiser of " + g.Name() + "." + p}
+					complex = true
 				}
 			})
 		}
 	}
-	if !trusted || n == 0 {
+	if !trusted || n == 0 || complex {
 		return nil
 	}
 	return o
+}
+
+// evalGlobal evaluates the initialiser of a package-level variable: the backward slice of the store in the package's
+// init function (the instructions the stored value is computed from, including the element stores of composite
+// literals) is executed abstractly, everything else in init is skipped.
+func evalGlobal(p *Program, rel, name string) (aval, string) {
+	pk := p.Pkg(rel)
+	if pk == nil {
+		return nil, "package not loaded"
+	}
+	g, ok := pk.Members[name].(*ssa.Global)
+	if !ok {
+		return nil, "no such variable"
+	}
+	init := pk.Func("init")
+	if init == nil {
+		return nil, "no init function"
+	}
+	var stop *ssa.Store
+	n := 0
+	allInstrs(init, func(in ssa.Instruction) {
+		if st, ok := in.(*ssa.Store); ok && st.Addr == ssa.Value(g) {
+			stop = st
+			n++
+		}
+	})
+	if n != 1 {
+		return nil, fmt.Sprintf("%d whole-variable stores in init", n)
+	}
+	set := map[ssa.Instruction]bool{}
+	var addV func(v ssa.Value)
+	addV = func(v ssa.Value) {
+		in, ok := v.(ssa.Instruction)
+		if !ok || set[in] || in.Parent() != init {
+			return
+		}
+		set[in] = true
+		for _, op := range in.Operands(nil) {
+			if *op != nil {
+				addV(*op)
+			}
+		}
+		// memory the value is read from: stores into allocs (composite literals) it refers to
+		if a, ok := v.(*ssa.Alloc); ok {
+			var viaAddr func(addr ssa.Value)
+			viaAddr = func(addr ssa.Value) {
+				refs := addr.Referrers()
+				if refs == nil {
+					return
+				}
+				for _, r := range *refs {
+					switch t := r.(type) {
+					case *ssa.Store:
+						if t.Addr == addr {
+							set[t] = true
+							addV(t.Val)
+						}
+					case *ssa.FieldAddr:
+						if t.X == addr {
+							set[t] = true
+							viaAddr(t)
+						}
+					case *ssa.IndexAddr:
+						if t.X == addr {
+							set[t] = true
+							addV(t.Index)
+							viaAddr(t)
+						}
+					}
+				}
+			}
+			viaAddr(a)
+		}
+	}
+	addV(stop.Val)
+	env := &absEnv{globals: map[string]*aobj{}, noFork: true, maxSteps: 200000, sliceFn: init, sliceSet: set, sliceStop: stop}
+	res, und := env.run(init, nil)
+	return res, und
+}
+
+var globalDepth int
+
+// assignedOutsideInit: some function other than the package initialiser stores into the variable (it is not a constant).
+func assignedOutsideInit(g *ssa.Global) bool {
+	found := false
+	for _, m := range g.Pkg.Members {
+		f, ok := m.(*ssa.Function)
+		if !ok || f.Name() == "init" {
+			continue
+		}
+		for _, fn := range withClosures(f) {
+			allInstrs(fn, func(in ssa.Instruction) {
+				if st, ok := in.(*ssa.Store); ok && rootOf(st.Addr) == ssa.Value(g) {
+					found = true
+				}
+			})
+		}
+	}
+	return found
 }
